@@ -10,6 +10,36 @@ utility is in the context of the shape classes.
 """
 
 import numpy as np
+from scipy.optimize import nnls
+
+
+def _is_minimal_bounding_ball(points, center, r2):
+    """Check that a ball is the smallest ball containing all of the points.
+
+    The miniball package occasionally returns a ball that misses some of the points
+    or that is larger than necessary, without raising an error. A ball is the minimal
+    bounding ball exactly when it contains every point and its center is a convex
+    combination of the points on its boundary, which is what is tested here (with
+    tolerances relative to the size of the ball).
+    """
+    points = np.asarray(points, dtype=float)
+    center = np.asarray(center, dtype=float)
+    d2 = np.sum((points - center) ** 2, axis=1)
+    if not np.all(np.isfinite(d2)) or not np.isfinite(r2) or r2 < 0:
+        return False
+    if r2 == 0:
+        return bool(np.all(d2 == 0))
+    if np.max(d2) > r2 * (1 + 1e-8):
+        return False
+    on_boundary = points[d2 >= r2 * (1 - 1e-6)]
+    if len(on_boundary) == 0:
+        return False
+    # Find weights >= 0 summing to 1 with sum_i w_i (p_i - center) = 0.
+    a = np.vstack([(on_boundary - center).T / np.sqrt(r2), np.ones(len(on_boundary))])
+    b = np.zeros(a.shape[0])
+    b[-1] = 1
+    _, residual = nnls(a, b)
+    return bool(residual <= 1e-6)
 
 
 def translate_inertia_tensor(displacement, inertia_tensor, volume):
